@@ -485,7 +485,7 @@ func (prog Progress) walkTransforming(n datamodel.Node, s selector.Selector, fn 
 		if err != nil {
 			return nil, err
 		}
-		if new_n != n {
+		if !sameNode(new_n, n) {
 			// don't continue on transformed subtrees
 			return new_n, nil
 		}
@@ -501,6 +501,18 @@ func (prog Progress) walkTransforming(n datamodel.Node, s selector.Selector, fn 
 	default:
 		return n, nil
 	}
+}
+
+// sameNode reports whether the transform function handed back the node it was given.
+// Node implementations of uncomparable dynamic type (e.g. slice-backed bytes) cannot be
+// compared with ==; they are scalars, so treating them as replaced is equivalent.
+func sameNode(a, b datamodel.Node) (same bool) {
+	defer func() {
+		if recover() != nil {
+			same = false
+		}
+	}()
+	return a == b
 }
 
 func contains(interest []datamodel.PathSegment, candidate datamodel.PathSegment) bool {
